@@ -462,6 +462,16 @@ func TestC14_CLI(t *testing.T) {
 	}
 	data = nil
 	runs := EnvInt("CLIRUNS", 2)
+	for j, d := range []time.Duration{400 * time.Millisecond, 1500 * time.Millisecond, 5 * time.Millisecond, 60 * time.Millisecond} {
+		if j >= 2 && !Thorough() {
+			break
+		}
+		res := c14CLIStartupSigint(keys, d)
+		if msg := handle(col, "C14", "TestC14_CLI", map[string]any{"startupSigintAfter": d.String()}, res); msg != "" {
+			fmt.Printf("VIOLATION property=C14 replay=%s\n", replayPath("C14", "TestC14_CLI"))
+			t.Fatal(msg)
+		}
+	}
 	for i := 0; i < runs; i++ {
 		k := i % 3         // requests in flight at SIGINT
 		double := i%2 == 1 // a second SIGINT arrives while an accepted request (body half uploaded) is still being served
@@ -473,6 +483,83 @@ func TestC14_CLI(t *testing.T) {
 			t.Fatal(msg)
 		}
 	}
+}
+
+// c14CLIStartupSigint: "however the stop is timed relative to start-up" for the command-line server. The keys file is a
+// FIFO, so the process sits in "loading the proving system" for as long as the harness likes; SIGINT arrives in that
+// window, then the keys are fed. Either answer of a correct tree is accepted: the process dies of the signal at once (no
+// handler installed yet - the unchanged tree), or it finishes loading and then stops gracefully. What must not happen
+// is that the stop is LOST: the process loads, starts serving and never exits. Positive signs only: the prover address
+// accepting connections and the process still alive 30 s after that.
+func c14CLIStartupSigint(keys string, delay time.Duration) Result {
+	dir := filepath.Dir(keys)
+	fifo := filepath.Join(dir, fmt.Sprintf("keys-%d.fifo", delay.Milliseconds()))
+	if err := syscall.Mkfifo(fifo, 0o600); err != nil {
+		return bad("cli-startup", "harness:mkfifo", "%v", err)
+	}
+	defer os.Remove(fifo)
+	w, err := os.OpenFile(fifo, os.O_RDWR, 0) // O_RDWR never blocks on a FIFO (Linux); we are its writer
+	if err != nil {
+		return bad("cli-startup", "harness:fifo", "%v", err)
+	}
+	defer w.Close()
+	pa, ma := freeAddr(), freeAddr()
+	cmd := exec.Command(cliPath(), "start", "--mode", "deletion", "--keys-file", fifo, "--prover-address", pa, "--metrics-address", ma)
+	logf, _ := os.CreateTemp(dir, "startup-*.log")
+	defer logf.Close()
+	cmd.Stdout, cmd.Stderr = logf, logf
+	if err := cmd.Start(); err != nil {
+		return bad("cli-startup", "harness:start", "%v", err)
+	}
+	exited := make(chan error, 1)
+	go func() { exited <- cmd.Wait() }()
+	time.Sleep(delay)
+	cmd.Process.Signal(syscall.SIGINT)
+	select {
+	case <-exited:
+		return ok("cli-startup/sigint-while-loading", true).tag("startup-sigint:process-ended-at-once")
+	case <-time.After(2 * time.Second):
+	}
+	// still alive: the signal is being held for later (or was lost). Let the load finish.
+	fed := make(chan error, 1)
+	go func() {
+		f, err := os.Open(keys)
+		if err != nil {
+			fed <- err
+			return
+		}
+		defer f.Close()
+		_, err = io.Copy(w, f)
+		fed <- err
+	}()
+	accepting := time.Time{}
+	deadline := time.Now().Add(300 * time.Second)
+	for time.Now().Before(deadline) {
+		select {
+		case <-exited:
+			w.Close()
+			return ok("cli-startup/sigint-while-loading", true).tag("startup-sigint:stopped-after-load")
+		default:
+		}
+		if c, err := net.DialTimeout("tcp", pa, time.Second); err == nil {
+			c.Close()
+			if accepting.IsZero() {
+				accepting = time.Now()
+			}
+		}
+		if !accepting.IsZero() && time.Since(accepting) > 30*time.Second {
+			cmd.Process.Kill()
+			<-exited
+			w.Close()
+			out, _ := os.ReadFile(logf.Name())
+			return bad("cli-startup/sigint-while-loading", "cli-start:stop-during-startup-lost", "SIGINT %v after process start (keys still loading) neither ended the process nor stopped it after the load: 30 s after the prover address began accepting connections the server is still running; log tail: %s", delay, tail(out, 300))
+		}
+		time.Sleep(100 * time.Millisecond)
+	}
+	cmd.Process.Kill()
+	<-exited
+	w.Close()
+	return bad("cli-startup/sigint-while-loading", "harness:startup-sigint-inconclusive", "process neither exited nor began serving within 300 s")
 }
 
 func c14CLIRun(ps *prover.ProvingSystem, keys string, k, salt int, double bool) Result {
